@@ -103,8 +103,8 @@ pub fn run(ctx: &Ctx) -> Outcome {
         let iv_len = if *fam == "ige" { 2 * bs } else { bs };
         let pre = dirty(lmax + 2 * bs);
         for key in keys(seed, cfg.key_len).iter().take(if sweep { 1 } else { tier.pick(1, 2) }) {
-            for (ivn, iv) in iv_variants(seed, iv_len).into_iter().skip(if sweep { 2 } else { 0 }) {
-                for (dn, data) in data_variants(seed, 0xC01, lmax).into_iter().skip(if sweep { 2 } else { 0 }) {
+            for (ivn, iv) in iv_variants(seed, iv_len).into_iter().skip(if sweep { 2 } else { light(cfg, tier) }) {
+                for (dn, data) in data_variants(seed, 0xC01, lmax).into_iter().skip(if sweep { 2 } else { light(cfg, tier) }) {
                     for &l in &lens {
                         let m = &data[..l];
                         for ef in &enc_fes {
@@ -156,11 +156,11 @@ pub fn run(ctx: &Ctx) -> Outcome {
         let ef = fe_cts(cfg, d, Dir::Enc);
         let df = fe_cts(cfg, d, Dir::Dec);
         for key in keys(seed, cfg.key_len).iter().take(1) {
-            for (ivn, iv) in iv_variants(seed, bs) {
+            for (ivn, iv) in iv_variants(seed, bs).into_iter().skip(if d.cbc { light(cfg, tier) } else { 0 }) {
                 if !d.cbc && ivn != "zero" {
                     continue;
                 }
-                for (dn, data) in data_variants(seed, 0xC01, lmax) {
+                for (dn, data) in data_variants(seed, 0xC01, lmax).into_iter().skip(light(cfg, tier)) {
                     for &l in &lens {
                         let m = &data[..l];
                         for ek in KINDS {
